@@ -35,6 +35,8 @@ type params struct {
 	Len    int    `json:"len"`
 	First  int    `json:"first"` // first-op index partition for parallelism
 	Offset int    `json:"offset"`
+	// Overlap: another client's complete request is served between the two segments of the judged one
+	Overlap bool `json:"overlap,omitempty"`
 }
 
 func buffers(seed int64) [][]byte {
@@ -80,6 +82,10 @@ func (prop) Plan(tier string, seed int64) []core.Batch {
 		p, _ := json.Marshal(params{Mode: "ipp", Offset: c * (ippN / ippChunks)})
 		plan = append(plan, core.Batch{Name: fmt.Sprintf("ipp/%d", c), N: ippN / ippChunks, Params: p, Timeout: 900})
 	}
+	// the same requests while another client's request is served in the middle of them (the request under
+	// judgement arrives in two segments; a complete print job from another address is answered in between)
+	p, _ = json.Marshal(params{Mode: "ipp", Offset: 7000000, Overlap: true})
+	plan = append(plan, core.Batch{Name: "ipp-overlapped", N: ippN / 4, Params: p, Timeout: 900})
 	return plan
 }
 
@@ -346,6 +352,21 @@ services=["ipp"]
 		cc := srv.L.DialTCP(lab.TCPAddr("10.0.0.1", 631), lab.TCPAddr("203.0.113.7", port))
 		req := gen.HTTPRequest("POST", "/printers/x", [][2]string{{"Host", "printer.test"}, {"Content-Type", "application/ipp"}}, q.encode(), q.Chunked)
 		cc.SetDeadline(time.Now().Add(10 * time.Second))
+		if p.Overlap && len(req) > 40 {
+			// first part, then another client's complete print job, then the rest
+			cut := len(req) - len(req)/3
+			cc.Write(req[:cut])
+			time.Sleep(2 * time.Millisecond)
+			other := mkIPP(b.Seed, p.Offset+k+500000)
+			oc := srv.L.DialTCP(lab.TCPAddr("10.0.0.1", 631), lab.TCPAddr("203.0.113.99", port))
+			oc.SetDeadline(time.Now().Add(5 * time.Second))
+			oc.Write(gen.HTTPRequest("POST", "/printers/y", [][2]string{{"Host", "printer.test"}, {"Content-Type", "application/ipp"}}, other.encode(), false))
+			if resp, err := http.ReadResponse(bufio.NewReader(oc), nil); err == nil {
+				io.ReadAll(resp.Body)
+			}
+			oc.Close()
+			req = req[cut:]
+		}
 		if _, err := cc.Write(req); err != nil {
 			ob.Err = "write: " + err.Error()
 		} else {
